@@ -363,6 +363,10 @@ func genNumber(t *rapid.T, label string, lim int) string {
 	default:
 		s = strconv.Itoa(rapid.IntRange(0, 48).Draw(t, label+".i"))
 	}
+	// redundant leading zeros in the integer part are still digits
+	if s[0] != '.' && rapid.IntRange(0, 11).Draw(t, label+".lead0") == 0 {
+		s = strings.Repeat("0", rapid.IntRange(1, 3).Draw(t, label+".nlead")) + s
+	}
 	switch {
 	case neg:
 		return "-" + s
